@@ -347,7 +347,8 @@ theorem accOps_freshYield (ns : Nat) (k : AccKind) (hk : k.fresh = true) :
 /-- **Every context yielded by an accumulator's `compute()`/`request()` is new.**  For every accumulator whose
 methods allocate what they yield (`FreshYield`; `accOps_freshYield`: all modelled framework accumulators), for
 every history of `fill`/`compute`/`request` invocations interleaved with arbitrary changes `ext f` of the heap
-by the rest of the program (in-place mutation of anything yielded or filled), in which the values passed to
+by the rest of the program (in-place mutation of anything yielded or filled) and with state changes `upd g`
+that allocate nothing (`reset()`), in which the values passed to
 `fill` exist when they are passed (`hin`: an object of the accumulator's own namespace has a serial below the
 current allocation counter — a filled value may well be an earlier result): the objects of the values yielded
 by an invocation `e`
@@ -355,13 +356,14 @@ by an invocation `e`
 * are not objects of any value filled before, and
 * are not objects of any value yielded before. -/
 theorem acc_yield_fresh (ops : Ops σ S C) (ns : Nat) (ctr : σ → Nat) (hF : FreshYield ops ns ctr)
-    (h : List (HOp S C)) (st : Store C) (s : σ)
+    (h : List (HOp σ S C)) (st : Store C) (s : σ)
     (hacc : ∀ r, HOp.req r ∈ h → r.isAcc = true)
+    (hupd : ∀ g, HOp.upd g ∈ h → ∀ s, ctr s ≤ ctr (g s))
     (hin : ∀ e ∈ runHist ops ctr st s h, ∀ t ∈ e.req.cells, t.1 = ns → t.2 < e.ctr)
     (pre : List (HEv S)) (e : HEv S) (post : List (HEv S)) (heq : runHist ops ctr st s h = pre ++ e :: post) :
     (cellsOf e.resp.outs).Nodup ∧
     ∀ t ∈ cellsOf e.resp.outs, ∀ e' ∈ pre, t ∉ e'.req.cells ∧ t ∉ cellsOf e'.resp.outs := by
-  obtain ⟨h1, _, h3⟩ := acc_yield_fresh_aux ops ns ctr hF h st s hacc hin pre e post heq
+  obtain ⟨h1, _, h3⟩ := acc_yield_fresh_aux ops ns ctr hF h st s hacc hupd hin pre e post heq
   exact ⟨h1, h3⟩
 
 /-- non-vacuity: `Count("n")`, filled with two upstream values and computed twice, the first result mutated in
@@ -370,7 +372,7 @@ example :
     let ops := accOps (ownNs 0) (.count "n")
     let x : HItem := mkItem (.int 1) (some (upNs, 0))
     let y : HItem := mkItem (.int 2) (some (upNs, 1))
-    let h : List (HOp Skel Lena.Flow.Value) :=
+    let h : List (HOp HSt Skel Lena.Flow.Value) :=
       [.req (.fill x), .req (.fill y), .req .compute, .ext (fun st => st.set (ownNs 0, 0) (.dict [])), .req .compute]
     (runHist ops (fun s : HSt => s.ctr) (fun _ => .dict []) {} h).map (fun e => cellsOf e.resp.outs)
       = [[], [], [(2, 0)], [(2, 1)]] := by
@@ -384,7 +386,7 @@ example :
     let x : HItem := mkItem (.int 1) (some (upNs, 0))
     let y : HItem := mkItem (.int 3) (some (upNs, 1))
     let z : HItem := mkItem (.int 2) (some (ownNs 0, 0))
-    let h : List (HOp Skel Value) :=
+    let h : List (HOp HSt Skel Value) :=
       [.req (.fill x), .req (.fill y), .req .compute,
        .ext (fun st => st.set (ownNs 0, 0) (.dict [("output", .str "f")])), .req .compute, .req (.fill z)]
     (∀ r, HOp.req r ∈ h → r.isAcc = true) ∧
@@ -459,5 +461,122 @@ theorem store_yields_filled :
     (runHist ops (fun s : HSt => s.ctr) (fun _ => (.dict [] : Lena.Flow.Value)) {} [.req (.fill x), .req .compute]).map
       (fun e => cellsOf e.resp.outs) = [[], [(upNs, 0)]] := by
   decide
+
+/-! ## `Zip._compute`: the merged context is new -/
+
+/-- **`Zip([accumulator, …])`** (`Zip._fill` + `Zip._compute`/`_request` with `_create_context`): whatever its
+branches are and yield, the context of the zipped value is an object that `Zip` allocates during this very call
+(the deep copy made by `intersection`), so `acc_yield_fresh` applies to a `Zip` as to any accumulator. -/
+theorem zip_compute_fresh (ks : List AccKind) :
+    FreshYield (zipOps ks) (ownNs ks.length) (fun z : ZSt => z.ctr) := by
+  have key : ∀ st (z : ZSt) (r : Req Skel),
+      z.ctr ≤ ((zipOps ks).act st z r).2.1.ctr ∧
+      (∀ t ∈ cellsOf ((zipOps ks).act st z r).2.2.outs,
+        InRange (ownNs ks.length) z.ctr ((zipOps ks).act st z r).2.1.ctr t) ∧
+      (cellsOf ((zipOps ks).act st z r).2.2.outs).Nodup := by
+    intro st z r
+    cases r <;> simp only [zipOps, zipAct]
+    case fill x => simp [cellsOf]
+    case call => simp [cellsOf]
+    case run buf => simp [cellsOf]
+    all_goals
+      split
+      · simp [cellsOf]
+      · split
+        · simp [cellsOf]
+        · split <;> simp [cellsOf, mkItem, InRange]
+  exact ⟨fun st z r => (key st z r).1, fun st z r _ => (key st z r).2.1, fun st z r _ => (key st z r).2.2⟩
+
+/-! ## documented aliasing: `StoreFilled`, `GroupBy` -/
+
+theorem store_fill (ns : Nat) (st : Store Value) (s : HSt) (x : HItem) :
+    (accOps ns .store).act st s (.fill x) =
+      (st, { ctr := s.ctr, cs := [], acc := { s.acc with group := s.acc.group ++ [x] } }, {}) := by
+  simp [accOps, hOps, hAct, hActM, applySteps, accFill, M.run, bind, pure]
+
+/-- **`StoreFilled(yield_as_a_group=False)` yields the filled values themselves** (documented result, outside the
+second sentence of C04): after filling any values `xs` into a new element, `compute()` yields exactly `xs` — the
+same objects, in order — and neither `fill` nor `compute` touches the heap. -/
+theorem store_yields_what_was_filled (ns : Nat) (st : Store Value) (xs : List HItem) :
+    let f := fillAll (accOps ns .store) st {} xs
+    f.1 = st ∧ ((accOps ns .store).act f.1 f.2 .compute).2.2.outs = xs ∧
+      ((accOps ns .store).act f.1 f.2 .compute).1 = st := by
+  have gen : ∀ (xs : List HItem) (s : HSt),
+      (fillAll (accOps ns .store) st s xs).1 = st ∧
+      (fillAll (accOps ns .store) st s xs).2.acc.group = s.acc.group ++ xs := by
+    intro xs
+    induction xs with
+    | nil => intro s; simp [fillAll]
+    | cons x xs ih =>
+      intro s
+      simp only [fillAll, store_fill]
+      obtain ⟨i1, i2⟩ := ih { ctr := s.ctr, cs := [], acc := { s.acc with group := s.acc.group ++ [x] } }
+      exact ⟨i1, by rw [i2]; simp⟩
+  obtain ⟨g1, g2⟩ := gen xs {}
+  refine ⟨g1, ?_, ?_⟩
+  · have : ∀ (st' : Store Value) (s' : HSt), ((accOps ns .store).act st' s' .compute).2.2.outs = s'.acc.group := by
+      intro st' s'; simp [accOps, hOps, hAct, hActM, accCompute, M.run, bind, pure]
+    rw [this]; simpa using g2
+  · have : ∀ (st' : Store Value) (s' : HSt), ((accOps ns .store).act st' s' .compute).1 = st' := by
+      intro st' s'; simp [accOps, hOps, hAct, hActM, accCompute, M.run, bind, pure]
+    rw [this]; exact g1
+
+theorem storeGroup_fill (ns : Nat) (st : Store Value) (s : HSt) (x : HItem) :
+    (accOps ns .storeGroup).act st s (.fill x) =
+      (st, { ctr := s.ctr, cs := [], acc := { s.acc with group := s.acc.group ++ [x] } }, {}) := by
+  simp [accOps, hOps, hAct, hActM, applySteps, accFill, M.run, bind, pure]
+
+/-- **`StoreFilled(yield_as_a_group=True)`**: `compute()` yields one group; its list object is new (allocated by
+this call, `self.group[:]`), its members are exactly the filled values — the same objects. -/
+theorem storeGroup_yields_what_was_filled (ns : Nat) (st : Store Value) (xs : List HItem) :
+    let f := fillAll (accOps ns .storeGroup) st {} xs
+    ((accOps ns .storeGroup).act f.1 f.2 .compute).2.2.outs = [mkGroup (ns, f.2.ctr) xs] := by
+  have gen : ∀ (xs : List HItem) (s : HSt),
+      (fillAll (accOps ns .storeGroup) st s xs).1 = st ∧
+      (fillAll (accOps ns .storeGroup) st s xs).2.acc.group = s.acc.group ++ xs ∧
+      (fillAll (accOps ns .storeGroup) st s xs).2.ctr = s.ctr := by
+    intro xs
+    induction xs with
+    | nil => intro s; simp [fillAll]
+    | cons x xs ih =>
+      intro s
+      simp only [fillAll, storeGroup_fill]
+      obtain ⟨i1, i2, i3⟩ := ih { ctr := s.ctr, cs := [], acc := { s.acc with group := s.acc.group ++ [x] } }
+      exact ⟨i1, by rw [i2]; simp, i3⟩
+  obtain ⟨_, g2, _⟩ := gen xs {}
+  have : ∀ (st' : Store Value) (s' : HSt),
+      ((accOps ns .storeGroup).act st' s' .compute).2.2.outs = [mkGroup (ns, s'.ctr) s'.acc.group] := by
+    intro st' s'; simp [accOps, hOps, hAct, hActM, accCompute, M.run, bind, pure, allocM]
+  intro f
+  rw [this, g2]; simp
+
+/-- **`GroupBy.compute()` yields its internal lists**: the state is unchanged and the values yielded are the
+groups themselves — the same list objects at every call (so a group yielded earlier sees later fills; documented:
+"`groups` is a mapping of keys to lists of items") —, whose members are the filled values themselves. -/
+theorem groupBy_yields_internal (ns : Nat) (key : String) (st : Store Value) (s : HSt) :
+    (accOps ns (.groupBy key)).act st s .compute =
+      (st, s, { outs := s.acc.groups.map (fun g => mkGroup g.2.1 g.2.2) }) := by
+  simp [accOps, hOps, hAct, hActM, accCompute, M.run, bind, pure]
+
+/-- non-vacuity: two values with the same key, one with another; the second `compute()` yields the same list
+objects `(2,0)`, `(2,1)` as the first, the first group now with the value filled in between -/
+example :
+    let ops := accOps (ownNs 0) (.groupBy "g")
+    let st0 : Store Value := fun t => if t = (upNs, 1) then .dict [("g", .int 2)] else .dict [("g", .int 1)]
+    let x : HItem := mkItem (.int 1) (some (upNs, 0))
+    let y : HItem := mkItem (.int 2) (some (upNs, 1))
+    let z : HItem := mkItem (.int 3) (some (upNs, 2))
+    (runHist ops (fun s : HSt => s.ctr) st0 {}
+        [.req (.fill x), .req (.fill y), .req .compute, .req (.fill z), .req .compute]).map
+      (fun e => e.resp.outs.map (·.cells)) =
+      [[], [], [[(2, 0), (0, 0)], [(2, 1), (0, 1)]], [], [[(2, 0), (0, 0), (0, 2)], [(2, 1), (0, 1)]]] := by
+  decide
+
+/-! ## an empty `Split` -/
+
+/-- `Split([])` yields the values of the flow themselves (`_empty_run`): no branch, no copy. -/
+theorem empty_split_yields_flow {σ S C : Type} (s : Split σ S C) (h : s.branches = []) (st0 : Store C)
+    (flow : List (Item S)) : s.run st0 flow = (flow, st0) := by
+  simp [Split.run, h]
 
 end Lena.C04
